@@ -6,7 +6,7 @@ set -u
 ID=${1:-S01-columns-reserve-regions-truncates}; PROP=${2:-C10}
 cd /verif || exit 9
 [ -z "$(git -C /repo status --porcelain --untracked-files=no)" ] || { echo "/repo not clean"; exit 9; }
-git -C /repo apply seeded/$ID/patch.diff || exit 9
+git -C /repo apply /verif/seeded/$ID/patch.diff || exit 9
 trap 'git -C /repo checkout -q -- .' EXIT
 OUT=$(./check $PROP quick 2>/dev/null); RC=$?
 echo "$OUT" | head -3
